@@ -32,7 +32,7 @@ def correspondence(ctx, model_available=True):
     kinds = {}
     # long histories, on the real shell alone: undo walks back through every one of them, however many there are
     # (seed C13h kept only the 48 newest snapshots)
-    long_sessions = dp.make_sessions(rng, 2 if quick else 30, lambda k: dc.HISTORY_KINDS, sizes=(55, 70) if quick else (55, 90, 140))
+    long_sessions = dp.make_sessions(rng, 2 if quick else 30, lambda k: dc.HISTORY_KINDS, sizes=(70, 125) if quick else (55, 90, 140, 210))
     for s in sessions + long_sessions:
         for _, t in s["cmds"]:
             k = t.strip("()").split()[0]
@@ -51,7 +51,7 @@ def correspondence(ctx, model_available=True):
                 "undo on programs with data, calls and loops: real Shell vs Model/Session after every command and the "
                 "whole chain of saved snapshots at the end; on the real shell alone: command+undo compared with the "
                 "state before (machine, breakpoints, call depth, every saved snapshot, `info` text), undo down to "
-                "'Nothing to undo' compared with the initial state (also after histories of 55..140 commands), restart compared with a fresh session",
+                "'Nothing to undo' compared with the initial state (also after histories of 55..210 commands), restart compared with a fresh session",
         "distribution": dist, "samples": [dp.session_json(sessions[0])] if sessions else [],
         "disagreements": res["disagreements"], "spec_failures": spec_failures[:5],
         "model_vs_impl_agree": res["agree"], "model_available": model_available,
